@@ -34,20 +34,50 @@ Qed.
 Lemma steady_full_distinct prev new : n_distinct (steady_full prev new) = n_distinct (prev ++ new).
 Proof. apply n_distinct_same_uids, steady_full_uids. Qed.
 
+Lemma distinct_uids_NoDup_id l : NoDup l -> distinct_uids l = l.
+Proof.
+  induction l as [|x l IH]; simpl; intros H; [reflexivity|]. inversion H as [|? ? Hn H']; subst.
+  destruct (existsb (Nat.eqb x) l) eqn:E.
+  - apply existsb_exists in E as [y [Hy E]]. apply Nat.eqb_eq in E. subst. contradiction.
+  - rewrite (IH H'). reflexivity.
+Qed.
+Lemma n_distinct_NoDup l : NoDup (map uid l) -> n_distinct l = length l.
+Proof. intros H. unfold n_distinct. rewrite (distinct_uids_NoDup_id _ H). apply map_length. Qed.
+Lemma n_distinct_le l : n_distinct l <= length l.
+Proof.
+  unfold n_distinct. rewrite <- (map_length uid l). generalize (map uid l). clear l.
+  induction l as [|x l IH]; simpl; [lia|]. destruct (existsb (Nat.eqb x) l); simpl; lia.
+Qed.
+Lemma short_NoDup (l : list ind) : length l <= 1 -> NoDup (map uid l).
+Proof.
+  destruct l as [|x [|y l]]; simpl; intros H; try lia; [constructor|].
+  constructor; [intros []|constructor].
+Qed.
+Lemma steady_full_NoDup prev new :
+  NoDup (map uid prev) -> NoDup (map uid new) -> NoDup (map uid (steady_full prev new)).
+Proof. intros Np Nn. exact (rw_pop_NoDup new prev Nn Np). Qed.
+
 Section Contract.
   Variables bt dm : ind -> ind -> bool.
 
+  (* inheritance never raises, draws from prev + new and returns at most pop_size individuals.
+     Steady-state / parameter-free: no individual twice whenever prev and new are individually
+     repeat-free (a single survivor is returned once) or at least two distinct individuals exist
+     (selection merges repeated uids), and then exactly min(pop_size, distinct) individuals.
+     Generational: the first pop_size of new. *)
   Theorem inheritance_contract_g sc t o pop_size prev new :
     exists out, inherit_g bt dm sc t o pop_size prev new = Some out /\
-      incl out (prev ++ new) /\ length out <= pop_size /\
+      incl out (prev ++ new) /\ (1 <= pop_size -> length out <= pop_size) /\
       match sc with
       | Generational => out = firstn pop_size new /\ (NoDup (map uid new) -> NoDup (map uid out))
       | _ => (2 <= n_distinct (prev ++ new) ->
                 NoDup (map uid out) /\ length out = Nat.min pop_size (n_distinct (prev ++ new))) /\
-             (n_distinct (prev ++ new) = 1 -> exists x, In x (prev ++ new) /\ out = repeat x pop_size)
+             (NoDup (map uid prev) -> NoDup (map uid new) ->
+                NoDup (map uid out) /\
+                (1 <= pop_size -> length out = Nat.min pop_size (n_distinct (prev ++ new))))
       end.
   Proof.
-    assert (Steady : exists out,
+    assert (Sel : exists out,
                selection_call_g bt dm t o pop_size (steady_full prev new) pop_size = Some out /\
                incl out (prev ++ new) /\ length out <= pop_size /\
                (2 <= n_distinct (prev ++ new) ->
@@ -71,26 +101,52 @@ Section Contract.
         + destruct H2 as [_ L]; lia.
       - split; [exact H2|]. intros D. destruct (H1 D) as (x & Hx & ->). exists x. split; [|reflexivity].
         apply steady_full_incl, Hx. }
+    assert (Steady : exists out,
+               (let full := steady_full prev new in
+                if length full <=? 1 then Some full
+                else selection_call_g bt dm t o pop_size full pop_size) = Some out /\
+               incl out (prev ++ new) /\ (1 <= pop_size -> length out <= pop_size) /\
+               (2 <= n_distinct (prev ++ new) ->
+                  NoDup (map uid out) /\ length out = Nat.min pop_size (n_distinct (prev ++ new))) /\
+               (NoDup (map uid prev) -> NoDup (map uid new) ->
+                  NoDup (map uid out) /\
+                  (1 <= pop_size -> length out = Nat.min pop_size (n_distinct (prev ++ new))))).
+    { cbv zeta. pose proof (steady_full_distinct prev new) as D. pose proof (n_distinct_le (steady_full prev new)) as Le.
+      destruct (length (steady_full prev new) <=? 1) eqn:E.
+      - apply Nat.leb_le in E. exists (steady_full prev new). split; [reflexivity|].
+        split; [apply steady_full_incl|]. split; [lia|]. split; [lia|].
+        intros _ _. split; [apply short_NoDup, E|]. intros P.
+        rewrite <- D, (n_distinct_NoDup _ (short_NoDup _ E)). lia.
+      - apply Nat.leb_gt in E. destruct Sel as (out & Eo & I & L & H2 & _).
+        exists out. split; [exact Eo|]. split; [exact I|]. split; [intros _; exact L|]. split; [exact H2|].
+        intros Np Nn. pose proof (n_distinct_NoDup _ (steady_full_NoDup prev new Np Nn)) as Nd.
+        assert (D2 : 2 <= n_distinct (prev ++ new)) by lia.
+        destruct (H2 D2) as [N Len]. split; [exact N|]. intros _. exact Len. }
     destruct sc; simpl; try exact Steady.
     exists (firstn pop_size new). split; [reflexivity|]. split; [|split; [|split]].
     - intros x Hx. apply in_or_app. right. eapply firstn_incl, Hx.
-    - rewrite firstn_length. lia.
+    - intros _. rewrite firstn_length. lia.
     - reflexivity.
     - apply firstn_NoDup_map.
   Qed.
 End Contract.
 
-(* the executable clauses hold of the model's output for every oracle *)
+(* the executable clauses hold of the model's output for every oracle (sizes >= 1) *)
 Theorem model_inh_holds_b sc t o pop_size prev new :
-  inh_holds_b sc pop_size prev new (inherit sc t o pop_size prev new) = true.
+  1 <= pop_size -> inh_holds_b sc pop_size prev new (inherit sc t o pop_size prev new) = true.
 Proof.
-  destruct (inheritance_contract_g better dom sc t o pop_size prev new) as (out & E & I & L & H).
+  intros P. destruct (inheritance_contract_g better dom sc t o pop_size prev new) as (out & E & I & L & H).
   unfold inherit. rewrite E. unfold inh_holds_b. rewrite (subset_b_of_incl _ _ I).
-  apply Nat.leb_le in L. rewrite L. cbn [andb]. unfold implb.
-  assert (Steady : (2 <= n_distinct (prev ++ new) -> NoDup (map uid out) /\ length out = Nat.min pop_size (n_distinct (prev ++ new))) ->
-                   negb (2 <=? n_distinct (prev ++ new)) || nodup_uid out = true).
-  { intros H2. destruct (2 <=? n_distinct (prev ++ new)) eqn:D; [|reflexivity]. apply Nat.leb_le in D.
-    cbn [negb orb]. apply nodup_uid_iff, H2, D. }
+  specialize (L P). apply Nat.leb_le in L. rewrite L. cbn [andb]. unfold implb.
+  assert (Steady : (2 <= n_distinct (prev ++ new) -> NoDup (map uid out) /\ length out = Nat.min pop_size (n_distinct (prev ++ new))) /\
+                   (NoDup (map uid prev) -> NoDup (map uid new) -> NoDup (map uid out) /\
+                      (1 <= pop_size -> length out = Nat.min pop_size (n_distinct (prev ++ new)))) ->
+                   negb ((nodup_uid prev && nodup_uid new) || (2 <=? n_distinct (prev ++ new))) || nodup_uid out = true).
+  { intros [H2 HB]. destruct (nodup_uid prev && nodup_uid new) eqn:G.
+    - apply andb_true_iff in G as [Gp Gn]. cbn [orb negb].
+      apply nodup_uid_iff. apply (HB (proj1 (nodup_uid_iff _) Gp) (proj1 (nodup_uid_iff _) Gn)).
+    - cbn [orb]. destruct (2 <=? n_distinct (prev ++ new)) eqn:D; [|reflexivity]. apply Nat.leb_le in D.
+      cbn [negb orb]. apply nodup_uid_iff, H2, D. }
   destruct sc; try (apply Steady, H).
   destruct H as [_ H]. destruct (nodup_uid new) eqn:Nn; [|reflexivity]. cbn [negb orb].
   apply nodup_uid_iff, H, nodup_uid_iff, Nn.
@@ -108,7 +164,7 @@ Definition call_ok (c : op_call) (r : option (list ind)) : Prop :=
   | CallElitism p cs best new =>
       exists out, r = Some out /\ eli_holds_b p best new out = true /\
         (e_type p = KeepNBest \/ ahead_of_head worse best new < length new -> eli_head_b p best new out = true)
-  | CallInheritance sc t o ps prev new => inh_holds_b sc ps prev new r = true
+  | CallInheritance sc t o ps prev new => 1 <= ps -> inh_holds_b sc ps prev new r = true
   end.
 
 Theorem session_contract calls : Forall2 call_ok calls (run_session calls).
@@ -126,23 +182,25 @@ Qed.
 Definition well_behaved (f : list ind -> nat -> list ind) : Prop :=
   forall l n, (exists rest, Permutation (f l n ++ rest) l) /\ length (f l n) <= n.
 
-Lemma steady_full_NoDup prev new :
-  NoDup (map uid prev) -> NoDup (map uid new) -> NoDup (map uid (steady_full prev new)).
-Proof. intros Np Nn. exact (rw_pop_NoDup new prev Nn Np). Qed.
-
 Theorem inheritance_custom_contract f sc pop_size prev new :
   well_behaved f ->
   let out := inherit_custom f sc pop_size prev new in
-  incl out (prev ++ new) /\ length out <= pop_size /\
+  incl out (prev ++ new) /\ (1 <= pop_size -> length out <= pop_size) /\
   (NoDup (map uid prev) -> NoDup (map uid new) -> NoDup (map uid out)).
 Proof.
-  intros W. destruct sc; simpl;
-    try (destruct (W (steady_full prev new) pop_size) as [[rest P] L];
-         split; [intros x Hx; apply steady_full_incl; eapply Permutation_app_incl; eauto|];
-         split; [exact L|];
-         intros Np Nn; eapply Permutation_app_NoDup_map; [exact P|apply steady_full_NoDup; assumption]).
+  intros W.
+  assert (Steady : let out := (let full := steady_full prev new in if length full <=? 1 then full else f full pop_size) in
+                   incl out (prev ++ new) /\ (1 <= pop_size -> length out <= pop_size) /\
+                   (NoDup (map uid prev) -> NoDup (map uid new) -> NoDup (map uid out))).
+  { cbv zeta. destruct (length (steady_full prev new) <=? 1) eqn:E.
+    - apply Nat.leb_le in E. split; [apply steady_full_incl|]. split; [lia|]. intros _ _. apply short_NoDup, E.
+    - destruct (W (steady_full prev new) pop_size) as [[rest P] L].
+      split; [intros x Hx; apply steady_full_incl; eapply Permutation_app_incl; eauto|].
+      split; [intros _; exact L|].
+      intros Np Nn. eapply Permutation_app_NoDup_map; [exact P|apply steady_full_NoDup; assumption]. }
+  destruct sc; simpl; try exact Steady.
   split; [intros x Hx; apply in_or_app; right; eapply firstn_incl, Hx|].
-  split; [rewrite firstn_length; lia|]. intros _ Nn. apply firstn_NoDup_map, Nn.
+  split; [intros _; rewrite firstn_length; lia|]. intros _ Nn. apply firstn_NoDup_map, Nn.
 Qed.
 
 (* the three functions the driver uses are well-behaved *)
@@ -161,15 +219,16 @@ Qed.
 
 (* the executable clauses hold of the model output for every well-behaved user function *)
 Theorem model_inh_custom_holds_b f sc pop_size prev new :
-  well_behaved f -> inh_custom_holds_b sc pop_size prev new (inherit_custom f sc pop_size prev new) = true.
+  well_behaved f -> 1 <= pop_size ->
+  inh_custom_holds_b sc pop_size prev new (inherit_custom f sc pop_size prev new) = true.
 Proof.
-  intros W. destruct (inheritance_custom_contract f sc pop_size prev new W) as (I & L & N).
-  unfold inh_custom_holds_b. rewrite (subset_b_of_incl _ _ I). apply Nat.leb_le in L. rewrite L. cbn [andb].
-  unfold implb. destruct sc.
-  - destruct (nodup_uid prev) eqn:Np; [|reflexivity]. destruct (nodup_uid new) eqn:Nn; [|reflexivity].
-    cbn [andb negb orb]. apply nodup_uid_iff, N; apply nodup_uid_iff; assumption.
-  - destruct (nodup_uid new) eqn:Nn; [|reflexivity]. cbn [negb orb].
-    simpl. apply nodup_uid_iff, firstn_NoDup_map, nodup_uid_iff, Nn.
-  - destruct (nodup_uid prev) eqn:Np; [|reflexivity]. destruct (nodup_uid new) eqn:Nn; [|reflexivity].
-    cbn [andb negb orb]. apply nodup_uid_iff, N; apply nodup_uid_iff; assumption.
+  intros W P. destruct (inheritance_custom_contract f sc pop_size prev new W) as (I & L & N).
+  unfold inh_custom_holds_b. rewrite (subset_b_of_incl _ _ I). specialize (L P). apply Nat.leb_le in L. rewrite L.
+  cbn [andb]. unfold implb.
+  assert (Steady : negb (nodup_uid prev && nodup_uid new) || nodup_uid (inherit_custom f sc pop_size prev new) = true).
+  { destruct (nodup_uid prev) eqn:Np; [|reflexivity]. destruct (nodup_uid new) eqn:Nn; [|reflexivity].
+    cbn [andb negb orb]. apply nodup_uid_iff, N; apply nodup_uid_iff; assumption. }
+  destruct sc; try exact Steady.
+  destruct (nodup_uid new) eqn:Nn; [|reflexivity]. cbn [negb orb].
+  simpl. apply nodup_uid_iff, firstn_NoDup_map, nodup_uid_iff, Nn.
 Qed.
